@@ -213,6 +213,49 @@ theorem autopack_execute_bound (dups : Nat) (packs : List Pack) (ops : List Op)
     rw [execute_length dups packs ps kept hne h3]
     exact h4
 
+/-- Autopack reaches a fixed point in one step: after carrying out whatever
+`_do_autopack` planned for a collection with positive counts and no duplicated
+revisions, the revision total is unchanged and a second `_do_autopack` on the
+resulting collection (with the total the caller would pass then) does nothing. -/
+theorem autopack_fixpoint (packs : List Pack) (ops : List Op)
+    (hpos : ∀ p ∈ packs, 0 < p.1)
+    (h : doAutopack (keyCount packs) packs = .ok (some ops)) :
+    keyCount (executeOpsDup 0 packs ops) = keyCount packs ∧
+      doAutopack (keyCount (executeOpsDup 0 packs ops)) (executeOpsDup 0 packs ops) = .ok none := by
+  have hb := autopack_execute_bound 0 packs ops hpos h
+  have hk : keyCount (executeOpsDup 0 packs ops) = keyCount packs := by
+    rcases autopack_real_spec packs hpos with ⟨_, h'⟩ | ⟨ps, kept, h', h2, h3, _⟩
+    · rw [h'] at h; cases h
+    · rw [h'] at h
+      injection h with h; injection h with h
+      subst h
+      have hne : ps ≠ [] := by intro h; subst h; simp at h2
+      have := execute_cnt 0 packs ps kept hne h3 (Nat.zero_le _)
+      simpa [keyCount] using this
+  refine ⟨hk, ?_⟩
+  rw [autopack_none_iff, hk]
+  exact hb
+
+/-- With `dups` duplicated revisions dropped by the combination the total the
+next caller passes is smaller, and the fixed point may need further rounds:
+the pack count is still within the bound of the OLD total (`autopack_execute_bound`),
+and the revision total never grows. -/
+theorem autopack_total_nonincreasing (dups : Nat) (packs : List Pack) (ops : List Op)
+    (hpos : ∀ p ∈ packs, 0 < p.1)
+    (h : doAutopack (keyCount packs) packs = .ok (some ops)) :
+    keyCount (executeOpsDup dups packs ops) ≤ keyCount packs := by
+  rcases autopack_real_spec packs hpos with ⟨_, h'⟩ | ⟨ps, kept, h', h2, h3, _⟩
+  · rw [h'] at h; cases h
+  · rw [h'] at h
+    injection h with h; injection h with h
+    subst h
+    have hne : ps ≠ [] := by intro h; subst h; simp at h2
+    have hp := cnt_perm (execute_perm dups packs ps kept hne h3)
+    have hq := cnt_perm h3
+    have : cnt (ps ++ kept) = cnt ps + cnt kept := by simp [cnt, counts]
+    simp only [keyCount, cnt_cons] at *
+    omega
+
 /-- Why `cnt packs ≤ total` is needed: with a total smaller than the sum of
 the per-pack counts the planner runs out of buckets — `IndexError` in the real
 code (reproduced by the harness on the real method). -/
@@ -232,6 +275,12 @@ example : plan [(5, 1), (5, 2), (10, 3)] (packDistribution 20) = .ok [(10, [(5, 
   decide
 
 example : packsAfter 3 [(10, [(5, 2), (5, 1)])] = 2 ∧ maxPackCount 20 = 2 := by decide
+
+/-- `autopack_fixpoint` on that collection: one combination, then nothing. -/
+example : doAutopack (keyCount [(5, 1), (5, 2), (10, 3)]) [(5, 1), (5, 2), (10, 3)]
+      = .ok (some [(10, [(5, 2), (5, 1)])]) ∧
+    doAutopack 20 (executeOpsDup 0 [(5, 1), (5, 2), (10, 3)] [(10, [(5, 2), (5, 1)])]) = .ok none := by
+  constructor <;> rfl
 
 /-- a larger run with a partially used bucket (`12` eats one bucket of ten and
 two units of the next) -/
